@@ -9,6 +9,7 @@ Phase B: a fresh exec of the same program under the real profiler and the virtua
 recorded.  Both phases run in this process (same hash salt).
 """
 import ctypes
+import faulthandler
 import os
 import sys
 import threading
@@ -156,6 +157,7 @@ class P:
     def __init__(self, phase, rec, prof, ns, lib, snaps):
         self.phase, self.rec, self.prof, self.ns, self.lib, self.snaps = phase, rec, prof, ns, lib, snaps
         self.raw = {}
+        self.not_registered = []
         self.counts = {}
 
     def fn(self, name):
@@ -178,6 +180,20 @@ class P:
 
     def deco(self, name):
         self.ns[name] = self.prof(self.ns[name])
+        if self.phase == 'A':
+            # from now on every execution of this function goes through the profiler's wrapper
+            self.rec.ops.append(('W', self.rec.label(code_of(self.rawfn(name)))))
+
+    def addmod(self, names):
+        import types
+        mod = types.ModuleType('m_' + '_'.join(names))
+        for nm in names:
+            setattr(mod, nm, self.rawfn(nm))
+        self.prof.add_module(mod)
+        have = set(map(id, self.prof.functions))
+        for nm in names:
+            if id(self.rawfn(nm)) not in have:
+                self.not_registered.append(nm)
 
     def adv(self, d):
         if self.phase == 'A':
@@ -227,8 +243,16 @@ def run_program(prog, root, lib, k):
         h = P(phase, rec, prof, ns, lib, snaps)
         h.root, h.k = root, k
         ns['A'] = h.adv
+        ns['PROF'] = prof
         for fn, (path, text) in files.items():
-            exec(compile(text, path, 'exec'), ns, ns)
+            if fn == 'main.py' or not fn.startswith('twin'):
+                exec(compile(text, path, 'exec'), ns, ns)
+            else:
+                ns2 = {'__name__': 'twinmod', 'A': h.adv, 'PROF': prof}
+                exec(compile(text, path, 'exec'), ns2, ns2)
+                for nm, v in list(ns2.items()):
+                    if nm[:1] == 'f' and nm[1:].isdigit() and callable(v):
+                        ns['u' + nm[1:]] = v
         err = None
         if phase == 'A':
             threading.settrace(rec.gtrace)
@@ -256,6 +280,7 @@ def run_program(prog, root, lib, k):
                                     for kk, vv in cm.items())
             result['chm'] = [[rec.cid(code), [int(x) for x in hs]] for code, hs in prof.code_hash_map.items()]
             result['counts'] = h.counts
+            result['not_registered'] = h.not_registered
             result['gettrace_clear'] = sys.gettrace() is None
             try:
                 result['tool_free'] = sys.monitoring.get_tool(sys.monitoring.PROFILER_ID) is None
@@ -276,6 +301,19 @@ def main():
         have_clock = True
     except AttributeError:
         have_clock = False
+    if have_clock:
+        import line_profiler._line_profiler as _lp
+        lib.vclock_add_range.argtypes = [ctypes.c_uint64, ctypes.c_uint64]
+        so = os.path.realpath(_lp.__file__)
+        n = 0
+        for line in open('/proc/self/maps'):
+            parts = line.split()
+            if len(parts) >= 6 and os.path.realpath(parts[5]) == so and 'x' in parts[1]:
+                lo, hi = parts[0].split('-')
+                lib.vclock_add_range(int(lo, 16), int(hi, 16))
+                n += 1
+        if n == 0:
+            have_clock = False
     root = payload['root']
     os.makedirs(root, exist_ok=True)
     out = []
@@ -284,11 +322,13 @@ def main():
     for k, prog in enumerate(payload['programs']):
         if have_clock:
             lib.vclock_set_tick(int(prog.get('tick', 0)))
+        faulthandler.dump_traceback_later(150, exit=True)
         try:
             r = run_program(prog, root, lib, k)
         except BaseException as e:   # noqa
             import traceback
             r = dict(fatal=traceback.format_exc()[-1500:])
+        faulthandler.cancel_dump_traceback_later()
         out.append(r)
     emit(dict(out=out, have_clock=have_clock))
 
